@@ -84,6 +84,10 @@ class Schedules(Part):
         rec.on_synced = gates.done
         rec.gate_begin = True
         vectors = [[round(rng.uniform(-5, 5), 6) for _ in range(2)] for _ in range(n)]
+        if rng.random() < 0.4:
+            # replicated designs: distinct objects with identical coordinates (elites, particles clipped to a bound) are designs of their own
+            i, j = rng.sample(range(n), 2)
+            vectors[j] = list(vectors[i])
         rec.new_batch(vectors, pre=pre)
         th = threading.Thread(target=gates.controller, daemon=True)
         th.start()
@@ -120,6 +124,9 @@ class Schedules(Part):
             return "ok"
         rec = jobrec.Rec(dim=2, m=1, mode="parallel", workers=workers, gate=gate, script=script, db=db)
         vectors = [[round(rng.uniform(-5, 5), 6) for _ in range(2)] for _ in range(n)]
+        for _ in range(rng.choice([0, 0, 1, 3])):
+            i, j = rng.sample(range(n), 2)
+            vectors[j] = list(vectors[i])
         rec.new_batch(vectors, pre=[rng.random() < 0.15 for _ in range(n)])
         restore = None
         if case.get("contention"):
